@@ -53,7 +53,7 @@ HasCurve == \E i \in 1..Len(ops) : ops[i][1] \in {"Q", "C"}
 T(m, d) == [m |-> m, mden |-> d]
 Transforms == << T(<<1, 0, 0, 1, 0, 0>>, 1), T(<<1, 0, 0, 1, 0, 0>>, 1), T(<<1, 0, 0, 1, 2, -1>>, 1), T(<<2, 0, 0, 2, -8, -10>>, 1),
                  T(<<0, 1, -1, 0, 16, 0>>, 1), T(<<-1, 0, 0, 1, 16, 0>>, 1), T(<<1, 0, 0, 1, 0, 0>>, 2), T(<<2, 0, 0, 2, 1, 1>>, 2) >>
-Tols == << <<1, 1>>, <<1, 4>>, <<1, 16>>, <<1, 64>>, <<1, 10>> >>
+Tols == << <<1, 1>>, <<1, 4>>, <<1, 16>>, <<1, 64>>, <<1, 10>>, <<1, 1024>> >>
 Variant(j) ==
   LET h == hs + 7919 * j IN
   IF FAM = "curve"
